@@ -16,10 +16,10 @@ import prop_lib
 
 C03_VFILES = ["Mem/Alloc.v", "Mem/AllocProofs.v", "Mem/PropList.v", "Mem/Owned.v", "Mem/PropListProofs.v",
               "Mem/ParamSlots.v", "Mem/ParamProofs.v", "Mem/DataAlloc.v", "Mem/DataProofs.v", "Mem/DataZ0.v", "Mem/DataZ0Proofs.v", "Mem/AddArrays.v", "Mem/AddArraysProofs.v",
-              "Mem/HashTab.v", "Mem/HashTabProofs.v", "Mem/NewAlloc.v", "Mem/NewAllocProofs.v", "Properties_C03.v"]
+              "Mem/HashTab.v", "Mem/HashTabProofs.v", "Mem/NewAlloc.v", "Mem/NewAllocProofs.v", "Mem/NewHoldProofs.v", "Properties_C03.v"]
 C12_VFILES = ["Mem/Alloc.v", "Mem/AllocProofs.v", "Mem/PropList.v", "Mem/Owned.v", "Mem/PropListProofs.v",
               "Mem/ParamSlots.v", "Mem/ParamProofs.v", "Mem/DataAlloc.v", "Mem/DataProofs.v", "Mem/DataZ0.v", "Mem/DataZ0Proofs.v",
-              "Mem/HashTab.v", "Mem/HashTabProofs.v", "Mem/NewAlloc.v", "Mem/NewAllocProofs.v", "Properties_C12.v"]
+              "Mem/HashTab.v", "Mem/HashTabProofs.v", "Mem/NewAlloc.v", "Mem/NewAllocProofs.v", "Mem/NewHoldProofs.v", "Properties_C12.v"]
 
 MODELLED = [
     "vnaproperty.c: list_check_allocation, list_alloc, list_subtree, list_insert, list_append, list_delete, scalar_alloc, "
@@ -327,7 +327,9 @@ def compare(ctx, exe, drv, ops):
 def run_tie(ctx, exe_unused, prop):
     broken = []
     try:
-        exe = ctx.build_harness("mem_wb", san=True, wrap=True, exclude=("vnaproperty.c", "vnacal_new_parameter.c"))
+        # mem_wb.c #includes vnaproperty.c and vnacal_new_parameter.c: every global of those files is defined by the harness object, so the
+        # linker never extracts the two members from libvna.a and the archive built for the other harnesses can be reused
+        exe = ctx.build_harness("mem_wb", san=True, wrap=True)
         drv = ctx.ocaml_driver("drv_mem")
     except vplib.BuildError as e:
         ctx.obligation("tie:mem:build", False, str(e)[:300])
